@@ -1322,6 +1322,28 @@ pub fn universe_b() -> Vec<Ty> {
     vec![Ty::unit(), Ty::Bool, u(1), u(8), Ty::opt(u(8)), Ty::either(u(1), u(8)), Ty::tup(vec![u(1), u(8)]), Ty::arr(u(1), 3)]
 }
 
+/// Degenerate sizes: zero-width components, empty and one-element containers, the smallest list bound.
+pub fn universe_d() -> Vec<Ty> {
+    let u = Ty::U;
+    vec![
+        Ty::unit(),
+        u(8),
+        Ty::Bool,
+        Ty::arr(u(8), 0),
+        Ty::arr(u(8), 1),
+        Ty::arr(Ty::unit(), 2),
+        Ty::tup(vec![Ty::unit()]),
+        Ty::tup(vec![Ty::unit(), u(8)]),
+        Ty::tup(vec![u(8), Ty::arr(u(8), 0)]),
+        Ty::opt(Ty::unit()),
+        Ty::either(Ty::unit(), Ty::unit()),
+        Ty::either(Ty::arr(u(8), 0), u(8)),
+        Ty::list(Ty::unit(), 2),
+        Ty::list(u(8), 2),
+        Ty::list(Ty::unit(), 4),
+    ]
+}
+
 pub fn universe_c() -> Vec<Ty> {
     vec![Ty::Bool, Ty::U(1), Ty::opt(Ty::U(1))]
 }
